@@ -223,7 +223,7 @@ target = str(target)
 for patterns1 in patterns:
     found2 = False
     for patterns2 in patterns1:
-        mo = re_.%(fn)s(patterns2, target)
+        mo = re_.%(fn)s(patterns2, target%(flags)s)
         if %(test)s:
             found2 = True
             break
@@ -246,10 +246,43 @@ def parse_patcheck(fn, gaps):
         return None
     for f, lf in FNS.items():
         for t, lt in TESTS.items():
-            if body == PATCHECK_SHAPE % {"fn": f, "test": t}:
-                return {"fn": lf, "str": True, "test": lt, "fn_py": f, "test_py": t}
+            for flags, asc in (("", False), (", re_.ASCII", True), (", re_.A", True), (", flags=re_.ASCII", True)):
+                if body == PATCHECK_SHAPE % {"fn": f, "test": t, "flags": flags}:
+                    return {"fn": lf, "str": True, "test": lt, "ascii": asc, "fn_py": f, "test_py": t,
+                            "shape": "re_.%s(p, target%s); %s" % (f, flags, t)}
     gaps.append("gds_validate_simple_patterns: body not understood: %s" % body[:300].replace("\n", " | "))
     return None
+
+
+FMT_FLOAT_OLD = 'value = (\'%.15f\' % float(input_data)).rstrip(\'0\')\nif value.endswith(\'.\'):\n    value += \'0\'\nreturn value'
+FMT_DOUBLE_OLD = "return '%s' % input_data"
+SPECIALS = "return {'inf': 'INF', '-inf': '-INF', 'nan': 'NaN'}.get(value, value)"
+FMT_FLOAT_NEW = FMT_FLOAT_OLD[:-len("return value")] + SPECIALS
+FMT_DOUBLE_NEW = "value = '%s' % input_data\n" + SPECIALS
+PARSE_FLOAT = "try:\n    fval_ = float(input_data)\nexcept (TypeError, ValueError) as exp:\n    raise_parse_error(node, %s %% exp)\nreturn fval_"
+
+
+def parse_float_codecs(fns, gaps):
+    """which spelling gds_format_float / gds_format_double give the non-finite values, and that gds_parse_float /
+    gds_parse_double read through float() (which accepts INF, -INF, NaN in any case)"""
+    out = {}
+    for name, old, new in (("gds_format_float", FMT_FLOAT_OLD, FMT_FLOAT_NEW), ("gds_format_double", FMT_DOUBLE_OLD, FMT_DOUBLE_NEW)):
+        f = fns.get(name)
+        body = "\n".join(_u(x) for x in f.body) if f is not None else None
+        if body == old:
+            out[name] = False
+        elif body == new:
+            out[name] = True
+        else:
+            gaps.append("%s: body not understood: %s" % (name, (body or "missing")[:200].replace("\n", " | ")))
+            out[name] = False
+    for name, msg in (("gds_parse_float", "'Requires float or double value: %s'"), ("gds_parse_double", "'Requires double or float value: %s'")):
+        f = fns.get(name)
+        body = "\n".join(_u(x) for x in f.body) if f is not None else None
+        out[name] = body == PARSE_FLOAT % msg
+        if not out[name]:
+            gaps.append("%s: body not understood: %s" % (name, (body or "missing")[:200].replace("\n", " | ")))
+    return out
 
 
 DEFINED_ST = "if value is not None:\n    try:\n        validator(value)\n    except GDSParseError as parse_error:\n        self.gds_collector_.add_message(str(parse_error))"
@@ -279,6 +312,7 @@ def extract_py(repo):
             out["patcheck"] = parse_patcheck(fns["gds_validate_simple_patterns"], gaps)
         else:
             gaps.append("GeneratedsSuper.gds_validate_simple_patterns not found")
+        out["codecs"] = parse_float_codecs(fns, gaps)
         d = fns.get("gds_validate_defined_ST_")
         if d is None or "\n".join(_u(s) for s in d.body) != DEFINED_ST:
             gaps.append("gds_validate_defined_ST_: body not understood")
@@ -407,7 +441,10 @@ def regenerate(repo, lean_dir, ix):
         # facet order: the order of the facets in the schema (dict preserves it)
         xtypes.append("  ⟨%d, %s, [%s], [%s], [%s]⟩" % (nm(s["name"]), b, ", ".join(ps), ", ".join(enums), ", ".join(bounds)))
     pc = P["patcheck"]
-    pcl = "⟨%s, %s, %s⟩" % (pc["fn"], "true" if pc["str"] else "false", pc["test"]) if pc else "⟨.search, false, .noTest⟩"
+    cod = P.get("codecs", {})
+    lb = lambda b: "true" if b else "false"
+    pcl = ("⟨%s, %s, %s, %s⟩" % (pc["fn"], "true" if pc["str"] else "false", pc["test"], "true" if pc["ascii"] else "false")
+           if pc else "⟨.search, false, .noTest, false⟩")
     defs = "\n".join("/-- `%s` -/\ndef %s : Rx.Rx :=\n  %s\n" % (k[0].replace("-/", "- /"), v[0], v[3]) for k, v in pats.items())
     src = ("import NmlVerif.Model.Facets\n"
            "/-! GENERATED by translators/validators_extract.py from neuroml/nml/nml.py and %s — do not edit. -/\n"
@@ -416,16 +453,21 @@ def regenerate(repo, lean_dir, ix):
            "/-- the distinct `validate_<SimpleType>` methods of nml.py (%d methods in all) -/\n"
            "def pyTypes : List PyType := [\n%s\n]\n\n"
            "/-- the simple types of the schema -/\ndef xsdTypes : List XsdType := [\n%s\n]\n\n"
-           "def nValidatorCopies : Nat := %d\n"
+           "def nValidatorCopies : Nat := %d\n\n"
+           "/-- `gds_format_float` / `gds_format_double` spell the non-finite values INF, -INF, NaN (extracted) -/\n"
+           "def floatSpecials : Bool := %s\ndef doubleSpecials : Bool := %s\n"
+           "/-- `gds_parse_float` / `gds_parse_double` read through `float()` (extracted) -/\n"
+           "def parseThroughFloat : Bool := %s\n"
            "end NmlVerif.Gen.Validators\n"
            % (os.path.basename(X["path"]), defs, pcl, len(P["validators"]), ",\n".join(pytypes), ",\n".join(xtypes),
-              len(P["validators"])))
+              len(P["validators"]), lb(cod.get("gds_format_float")), lb(cod.get("gds_format_double")),
+              lb(cod.get("gds_parse_float") and cod.get("gds_parse_double"))))
     out_path = os.path.join(lean_dir, "NmlVerif", "Gen", "Validators.lean")
     old = open(out_path).read() if os.path.exists(out_path) else None
     if old != src:
         with open(out_path, "w") as fh:
             fh.write(src)
-    info = {"patcheck": pc, "copies": copies, "validators": P["validators"], "tables": P["tables"],
+    info = {"patcheck": pc, "codecs": cod, "copies": copies, "validators": P["validators"], "tables": P["tables"],
             "stypes": X["stypes"], "n_patterns": len(pats)}
     return info, gaps
 
@@ -438,4 +480,5 @@ if __name__ == "__main__":
                             os.path.join(os.path.dirname(__file__), "..", "lean"), ix)
     print(len(info["validators"]), "validator methods,", len(info["tables"]), "pattern tables,", info["n_patterns"], "patterns; patcheck:",
           info["patcheck"])
+    print("codecs:", info["codecs"])
     print("gaps:", gaps[:10])
